@@ -49,6 +49,7 @@ LEVEL = "exploration"
 TECHNIQUE = ("deterministic simulation: seeded Range-header grammar x per-run producer bufferSize x tape-chosen pulls, client reads, back-pressure "
              "and connection loss on a pipelined connection; wire checked against an independent RFC 9110 range evaluator")
 QUICK_RUNS = 32000
+TWIN_P = 0.08   # this share of the runs drives two independent instances of the scenario one after the other (detsim.runner._run_scenario)
 BATCH = 100
 RUN_WALL_LIMIT_S = 90
 COMPONENTS = {
